@@ -988,7 +988,13 @@ func (s *Server) handleReindex(w http.ResponseWriter, r *http.Request) {
 		return
 	}
 
-	go func() { s.forceIndex(context.Background(), uint32(id)) }()
+	go func() {
+		// The request is answered before the job runs: the log is the only
+		// place that can say what became of it (indexed, failed, or skipped
+		// because the repository is being indexed already).
+		msg, _ := s.forceIndex(context.Background(), uint32(id))
+		infoLog.Printf("reindex of repository %d: %s", id, msg)
+	}()
 
 	// 202 Accepted
 	w.WriteHeader(http.StatusAccepted)
